@@ -6,7 +6,7 @@ ID = 'C05'
 FLAVORS = ['default']
 RULE = ('stream readers: one unit "CMD <list>" per scenario; the handler script is 0..4 typed readers (each of the 12 reader kinds, mandatory or optional) optionally followed by a failing return; '
         'the list has 0..5 items drawn from a pool typed by data class (decimal, decimal+known/unknown suffix, #H/#Q/#B, special/boolean/choice/other mnemonics, both string kinds, blocks, expressions) '
-        'with every blank placement IEEE 488.2 allows around items and commas. stream malformed: the same with one malformed fragment in the list. stream retval: multi-message input calls and overruns. '
+        'with every blank placement IEEE 488.2 allows around items and commas. stream malformed: the same with one malformed fragment in the list. stream retval: multi-message input calls and overruns. stream own-error: handlers that report their own error (positive device-defined and negative codes) and then fail or leave parameters unread. '
         'Non-trivial: a scenario that raises at least one error or reads at least two parameters; distinct = distinct lines.')
 MODELLED = 'SCPI_Parameter, every typed reader except the array readers, processCommand accounting, the unit scanner and the return value of SCPI_Input are modelled in ParserModel/LexModel'
 ASSUMPTIONS = ['array readers are exercised with ASCII format only through C01 (sanitizer) -- their silent-failure corners are recorded in DESIGN.md section 9',
